@@ -5,7 +5,7 @@
      lit s   = the characters of s inside literals, in order *)
 From Coq Require Import List NArith Arith Bool.
 Import ListNotations.
-Require Import Pyrefact.LayoutModel Pyrefact.LayoutProofs Pyrefact.RestoreModel Pyrefact.RestoreProofs.
+Require Import Pyrefact.LayoutModel Pyrefact.LayoutProofs Pyrefact.RestoreModel Pyrefact.RestoreProofs Pyrefact.FrameModel Pyrefact.FrameProofs.
 
 (* ---- T11.1: every stage changes only whitespace, for all texts -------------------------------- *)
 (* expandtabs and rmspace touch nothing but spaces and tabs (any tab size, any start column) *)
@@ -148,6 +148,28 @@ Print Assumptions R11_8_restore_guard_needed.
 Example restore_example :
   restore false [mkO 7 1 true; mkO 8 3 true] [mkN 7 2 true; mkN 8 3 true; mkN 7 4 false] = [Some [1]; None; None].
 Proof. reflexivity. Qed.
+
+(* ---- T11.9 / R11.10: the dedent / re-indent frame of fix_line_lengths -------------------------- *)
+(* with the indent computed as the minimum over the lines of the range (as the code does), every non-blank
+   line of the range -- in particular every line inside a multi-line literal -- comes back unchanged *)
+Theorem T11_9_frame_identity : forall ls, normal (fix_frame ls) = normal ls.
+Proof. exact fix_frame_identity. Qed.
+Print Assumptions T11_9_frame_identity.
+
+Theorem T11_9_frame_line : forall ls i l,
+  nth_error ls i = Some l -> blankl l = false -> nth_error (fix_frame ls) i = Some l.
+Proof. exact fix_frame_line. Qed.
+Print Assumptions T11_9_frame_line.
+
+(* refuted when the indent is read from the first line of the range only *)
+Theorem R11_10_frame_first_line : exists ls, normal (frame (lead (hd [] ls)) ls) <> normal ls.
+Proof. exact frame_first_line_refuted. Qed.
+Print Assumptions R11_10_frame_first_line.
+
+Example frame_example :
+  fix_frame [[32; 32; 97]; [32; 32; 32; 98]; []; [32; 32; 99]]%N = [[32; 32; 97]; [32; 32; 32; 98]; []; [32; 32; 99]]%N
+  /\ level [[32; 32; 97]; [32; 32; 32; 98]; []; [32; 32; 99]]%N = 2.
+Proof. vm_compute. split; reflexivity. Qed.
 
 (* ---- the guards are satisfiable by inputs on which the stages do something ---------------------- *)
 (* print("a")<TAB># c<SP><NL><NL><NL><NL><NL>x = 1<NL><NL> : the literal is masked *)
